@@ -41,8 +41,12 @@ def suite(wt):
 
 def main():
     props = sys.argv[1:]
+    prefix = '/tmp/wt_'
+    if '--prefix' in props:
+        prefix = props[props.index('--prefix') + 1]
+        props = [x for x in props if x not in ('--prefix', prefix)]
     for prop in props:
-        wt = '/tmp/wt_' + prop
+        wt = prefix + prop
         sd = os.path.join(wt, 'seeded')
         if not os.path.isdir(sd):
             print(prop, 'no seeded dir')
